@@ -362,7 +362,15 @@ class Engine:
             self.emit("div0", f"{self.stmt_label()}", b != 0, st.guard, self.c.arith_props)
         if z3.is_int_value(b) and b.as_long() > 0:
             return a / b, a % b          # SMT-LIB div/mod coincide with Python's for positive divisors
-        q, r = fresh("q"), fresh("r")
+        # floor division is a function of its operands: the same pair of terms gets the same quotient and remainder
+        memo = self.__dict__.setdefault("_divmemo", {})
+        key = (a.sexpr(), b.sexpr())
+        if key in memo and self.bound_depth == 0:
+            q, r = memo[key]
+        else:
+            q, r = fresh("q"), fresh("r")
+            if self.bound_depth == 0:
+                memo[key] = (q, r)
         f = z3.And(a == q * b + r, z3.If(b > 0, z3.And(0 <= r, r < b), z3.And(b < r, r <= 0)))
         if self.bound_depth == 0:
             self.fact(z3.Implies(b != 0, f), st.guard)
